@@ -139,6 +139,11 @@ enum COp {
     ReadDir(usize),
     OpenRw(usize),
     Truncate(usize),
+    /// descriptor semantics: write through a read-only handle; partial read, rewind, read again
+    RoWrite(usize),
+    SeekRead(usize, u64),
+    /// tempfile semantics: a NamedTempFile in a directory, its mode, persistence after drop
+    TempIn(usize),
 }
 
 const PATHS: [&str; 14] = ["a", "b", "c", "d", "d/x", "d/y", "d/../a", "a/", "d/", "d/.", "e/f/g", "e/f", "e", "d/x/z"];
@@ -166,13 +171,13 @@ fn gen_prog(r: &mut Rng64, n: usize) -> Vec<COp> {
             16 => COp::HandleTimes(p, if r.below(2) == 0 { Some(base + r.below(1000) as i64) } else { None }, if r.below(2) == 0 { Some(base + r.below(1000) as i64) } else { None }),
             17 => COp::Stat(p),
             18 => COp::ReadDir(p),
-            _ => {
-                if r.below(2) == 0 {
-                    COp::OpenRw(p)
-                } else {
-                    COp::Truncate(p)
-                }
-            }
+            _ => match r.below(5) {
+                0 => COp::OpenRw(p),
+                1 => COp::Truncate(p),
+                2 => COp::RoWrite(p),
+                3 => COp::SeekRead(p, r.below(12)),
+                _ => COp::TempIn(p),
+            },
         };
         v.push(op);
     }
@@ -222,6 +227,32 @@ fn run_prog(root: &str, prog: &[COp]) -> Vec<String> {
             ),
             COp::OpenRw(p) => format!("{:?}", errs(OpenOptions::new().read(true).write(true).open(path(*p)).map(|_| ()))),
             COp::Truncate(p) => format!("{:?}", errs(OpenOptions::new().write(true).truncate(true).open(path(*p)).map(|_| ()))),
+            COp::RoWrite(p) => format!("{:?}", errs(File::open(path(*p)).and_then(|mut f| f.write(b"zz")))),
+            COp::SeekRead(p, n) => format!(
+                "{:?}",
+                errs(File::open(path(*p)).and_then(|mut f| {
+                    use std::io::{Seek, SeekFrom};
+                    let mut head = vec![0u8; *n as usize];
+                    let got = f.read(&mut head)?;
+                    let pos = f.seek(SeekFrom::Current(0))?;
+                    f.seek(SeekFrom::Start(0))?;
+                    let mut all = Vec::new();
+                    f.read_to_end(&mut all)?;
+                    let end = f.seek(SeekFrom::End(0))?;
+                    Ok((got, pos, all.len(), end))
+                }))
+            ),
+            COp::TempIn(p) => format!(
+                "{:?}",
+                errs(kismet_vfs::tempfile::NamedTempFile::new_in(path(*p)).and_then(|mut t| {
+                    t.write_all(b"tmp")?;
+                    let m = t.as_file().metadata()?;
+                    let name_ok = t.path().file_name().map(|n| n.to_string_lossy().starts_with(".tmp") && n.len() == 10).unwrap_or(false);
+                    let tp = t.path().to_path_buf();
+                    drop(t);
+                    Ok((m.mode() & 0o777, m.len(), name_ok, fs::metadata(&tp).is_ok()))
+                }))
+            ),
         };
         log.push(format!("{:?} => {}", op, line));
         // state after the op: every path's type/mode/size/nlink and the
